@@ -9,7 +9,7 @@ from hypothesis import strategies as st
 
 from ..core import SubCheck, Violation, cut, require
 from ..oracles import atmosphere as oatm
-from ..strategies import bfloat, log_uniform, near, ulp_step
+from ..strategies import CHUNK_SIZES, bfloat, log_uniform, near, rel_near, ulp_step
 
 PROPERTY_ID = "C19"
 LEVEL = "exploration"
@@ -154,6 +154,68 @@ def body_roundtrip_p(case):
     return labels
 
 
+def body_big_and_aliasing(case):
+    """(a) one call on an array just beyond a block length equals the piecewise evaluation of its parts and the two
+    copies agree (a block loop dropping its tail); (b) results are fresh arrays: scribbling on a returned array, or on
+    the input after the call, does not change what a later call with an equal grid returns."""
+    m1, m2 = _mods()
+    n = case["n"]
+    labels = {f"n={n}"}
+    z = np.linspace(case["z0"], case["z1"], n)
+    z[:: max(1, n // 97)] = np.array(case["specials"] * (len(z[:: max(1, n // 97)]) // len(case["specials"]) + 1))[: len(z[:: max(1, n // 97)])]
+    for name, fwd, inv in (("pressure", "us_std_atm_pressure_from_altitude", "us_std_atm_altitude_from_pressure"),):
+        zin = z.copy()
+        with cut(f"pressure_from_altitude({n} elements)"):
+            P1 = np.asarray(getattr(m1, fwd)(zin))
+            P2 = np.asarray(getattr(m2, fwd)(zin))
+        require(zin.tobytes() == z.tobytes(), "pressure_from_altitude modified its input array")
+        require(P1.shape == (n,) and P1.tobytes() == P2.tobytes(), f"the two shipped copies disagree on an array of {n} elements")
+        k = case["cut"] % n
+        parts = np.concatenate([np.asarray(getattr(m1, fwd)(z[:k].copy())), np.asarray(getattr(m1, fwd)(z[k:].copy()))]) if 0 < k < n else P1
+        require(parts.tobytes() == P1.tobytes(), f"converting {n} altitudes in one call differs from converting [0:{k}] and [{k}:{n}] separately")
+        idx = np.unique(np.concatenate([np.arange(0, n, max(1, n // 200)), [n - 1, n - 2, max(0, n - 4097), (n // 2)]]))
+        for i in idx:
+            pr = oatm.pressure(float(z[i]))
+            require(abs(P1[i] - pr) <= TOL_ORACLE * pr, f"element {i} of {n}: P({z[i]!r}) = {P1[i]!r}, independent atmosphere {pr!r}")
+        with cut(f"altitude_from_pressure({n} elements)"):
+            Z1 = np.asarray(getattr(m1, inv)(P1.copy()))
+            Z2 = np.asarray(getattr(m2, inv)(P1.copy()))
+        require(Z1.shape == (n,) and Z1.tobytes() == Z2.tobytes(), f"the two shipped copies disagree on z(P) for an array of {n} elements")
+        bad = np.where(~(np.abs(Z1 - z) <= TOL_Z))[0]
+        require(bad.size == 0, f"z(P(z)) != z for {bad.size} of {n} elements of one array call (first at index {int(bad[0]) if bad.size else -1}: {z[bad[:1]].tolist()} -> {Z1[bad[:1]].tolist()})")
+        # aliasing
+        for mod in (m1, m2):
+            for fn, x in ((fwd, z), (inv, P1)):
+                f = getattr(mod, fn)
+                a = np.asarray(f(x.copy()))
+                keep = a.copy()
+                if a.flags.writeable:
+                    a[...] = -12345.0  # the caller scribbles on what it was given back
+                b = np.asarray(f(x.copy()))
+                require(b.tobytes() == keep.tobytes(), f"{fn}: after the caller modified a returned array in place, a later call with an equal grid returns different values (results alias internal state)")
+                xin = x.copy()
+                c = np.asarray(f(xin))
+                require(not np.shares_memory(c, xin), f"{fn}: the result shares memory with the input array")
+    labels.add("aliasing_probed")
+    return labels
+
+
+def _big_cases(tier):
+    import os
+
+    seed = int(os.environ.get("VERIF_SEED", "1") or "1")
+    rng = np.random.default_rng(seed)  # enumeration parameters only (sizes are fixed); part of the deterministic case list
+    for rep in range(1 if tier == "quick" else 6):
+        for n in [3, 1000] + CHUNK_SIZES:
+            yield {
+                "n": int(n),
+                "z0": float(rng.uniform(0.0, 10.0)),
+                "z1": float(rng.uniform(60.0, 120.0)),
+                "cut": int(rng.integers(1, 2**21)),
+                "specials": [float(x) for x in rng.choice(Z_SPECIAL[:14], size=4)] + [float(Z_SPECIAL[int(rng.integers(0, 14))] * (1 + 1e-9))],
+            }
+
+
 def body_monotone(case):
     m1, m2 = _mods()
     z1, z2 = sorted(case["pair"])
@@ -256,7 +318,7 @@ def body_float32(case):
 
 # ---------------------------------------------------------------------------------------------
 
-z_val = bfloat(0.0, 120.0, specials=Z_SPECIAL)
+z_val = st.one_of(bfloat(0.0, 120.0, specials=Z_SPECIAL), bfloat(0.0, 120.0, specials=Z_SPECIAL), rel_near(Z_SPECIAL[:14], 0.0, 120.0))
 P_TOP = oatm.pressure(120.0)
 p_val = st.one_of(
     log_uniform(P_TOP, 101325.0),
@@ -360,5 +422,14 @@ SUBCHECKS = [
         {"quick": 1},
         doc="exhaustive +-8 (quick) / +-64 (thorough) ulp sweep around every tabulated boundary pressure",
         exhaustive=_exh_boundaries_p,
+    ),
+    SubCheck(
+        "big_arrays_and_aliasing",
+        None,
+        body_big_and_aliasing,
+        lambda labels: True,
+        {"quick": 1},
+        doc="arrays just beyond block lengths (4097 .. 2^20+4097), every size on every run: one call == piecewise calls == other copy, round trip on every element; returned arrays are fresh (scribbling on them or on the input changes nothing later)",
+        exhaustive=lambda tier: _big_cases(tier),
     ),
 ]
